@@ -15,6 +15,8 @@ from .tlaval import parse_call
 
 
 class Coordinator(object):
+    overlap = False      # True: while a process creates an object, the others search (results discarded)
+
     def __init__(self, lib, wdroot, nprocs, logged, template):
         self.lib, self.wdroot, self.nprocs, self.logged, self.template = lib, wdroot, nprocs, logged, template
         self.n = 0
@@ -44,7 +46,13 @@ class Coordinator(object):
         p = a[0]
         if name == "MCreate":
             k = self.created + 1
+            others = [q for q in self.w if q != p] if self.overlap else []
+            for q in others:
+                self.w[q].send(dict(c="scan", ms=12))
             rep = self.call(p, dict(c="create", k=k, priv=a[1], token=a[2]))
+            for q in others:
+                if self.w[q].wait() != "reply":
+                    return dict(e="ProcessDied", p=q)
             if rep is None:
                 return dict(e="ProcessDied", p=p)
             if rep["rv"] == "OK":
@@ -83,6 +91,7 @@ class Coordinator(object):
 def main():
     lib, bfile, out, workdir, seed, nprocs, logged = sys.argv[1:8]
     backend = sys.argv[8] if len(sys.argv) > 8 else "file"
+    Coordinator.overlap = len(sys.argv) > 9 and sys.argv[9] == "overlap"
     logged = set() if logged == "-" else {int(x) for x in logged.split(",")}
     behaviours = json.load(open(bfile))
     os.makedirs(workdir, exist_ok=True)
